@@ -14,6 +14,7 @@ pub mod c15;
 pub mod c16;
 pub mod c17;
 pub mod c18;
+pub mod c19;
 pub mod c20;
 pub mod session;
 pub mod treecheck;
@@ -21,7 +22,7 @@ pub mod treecheck;
 use crate::core::Check;
 
 pub fn registry() -> Vec<&'static dyn Check> {
-    vec![&session::C01, &c02::C02, &c03::C03, &session::C04, &c05::C05, &c06::C06, &c07::C07, &c08::C08 { threads_only: false }, &c08::C08 { threads_only: true }, &c09::C09, &c10::C10, &c11::C11, &c12::C12, &c13::C13, &c14::C14, &c15::C15, &c16::C16, &c17::C17, &c18::C18, &c20::C20]
+    vec![&session::C01, &c02::C02, &c03::C03, &session::C04, &c05::C05, &c06::C06, &c07::C07, &c08::C08 { threads_only: false }, &c08::C08 { threads_only: true }, &c09::C09, &c10::C10, &c11::C11, &c12::C12, &c13::C13, &c14::C14, &c15::C15, &c16::C16, &c17::C17, &c18::C18, &c19::C19, &c20::C20]
 }
 
 pub fn find(id: &str) -> Option<&'static dyn Check> {
